@@ -1,5 +1,6 @@
 //! dbh — embedded-database engines. `dbh <engine> --seed N --tier quick|thorough --out FILE`
 
+mod conc_eng;
 mod corrupt_eng;
 mod crash_eng;
 mod derive_eng;
@@ -38,6 +39,7 @@ fn run_engine(engine: &str, args: &Args) -> Report {
         "hist_c18" => drive(&hist_eng::Hist { prop: "C18" }, args),
         "c13" => drive(&hist_eng::C13, args),
         "c19" => drive(&term_eng::C19, args),
+        "c23" => drive(&conc_eng::C23, args),
         "c32" => drive(&fault_eng::C32, args),
         "c22" => drive(&derive_eng::C22, args),
         "c07" => drive(&corrupt_eng::C07, args),
